@@ -1847,6 +1847,35 @@ func H§() {
 	_ = sa1.Itoa(3)
 	var _ *ba2.Writer
 }
+### ifaceconst | exprs
+type key§ string
+func F§(v interface{}, e error) bool {
+	if v == true && v == "yes" {
+		return true
+	}
+	if v == "yes" && v == true || v == 1 && v == "1" {
+		return false
+	}
+	if v == 1.5 && v == 'a' || v == 2i && v == false {
+		return true
+	}
+	if v == nil && v == false || v == key§("a") && v == "a" {
+		return false
+	}
+	if v != "a" || v != 1 {
+		return true
+	}
+	if v != true || v != "t" {
+		return true
+	}
+	if v == «i» && v == «s» || v == «s» && v == «b» {
+		return false
+	}
+	switch {
+	case v == 1 && v == 1.0, v == "a" && v == 'a', v == "x" || v != true:
+	}
+	return v == 0 && v == "" && e == nil && e == error(nil)
+}
 ### multiopts | exprs
 type opt§ func(*int)
 func withA§(x int) opt§ { return func(*int) {} }
